@@ -638,7 +638,8 @@ class Function(ValueNode):
         super(Function, self).__init__(value=None, name=name)
 
         self.func = func
-        parameters = parameters or []
+        # wrap literal values inside 'Parameter' (once: parameters and children have to be the same nodes)
+        parameters = [_par if isinstance(_par, NodeBase) else Parameter(_par) for _par in (parameters or [])]
         self.parameters = parameters
         self.set_children(parameters)
 
@@ -683,6 +684,8 @@ class Function(ValueNode):
         :param parameter: the parameter to be added.
         :type parameter: any
         """
+        if not isinstance(parameter, NodeBase):
+            parameter = Parameter(parameter)  # wrap literal values (once: parameter and child have to be the same node)
         self._parameters.append(parameter)
         self.add_child(parameter)
 
